@@ -70,6 +70,33 @@ def gen_history(rng, n, labels=True, deps=True, collide=False, max_parents=2, sh
     return hist
 
 
+def descriptive_history(rng):
+    """descriptive / hand-numbered revision ids, one of which is contained in another (`user` in `user_invoice`, `1` in
+    `11`), on two or three lineages tied together by depends_on: a revision with one down revision D depends on a revision X
+    of another lineage whose id is a proper substring of D"""
+    x, d = rng.choice([("user", "user_invoice"), ("1", "11"), ("r1", "r11"), ("tax", "billing_tax"), ("ab", "cabd"),
+                       ("acct", "acct2"), ("2", "120")])
+    la, lb = rng.choice([("accounts", "billing"), ("aa", "bb"), ("one", "two")])
+    x2 = x + "_more" if not x.isdigit() else str(int(x) + 1 if str(int(x) + 1) != d else int(x) + 5)
+    hist = [{"id": x, "down": [], "deps": [], "labels": [la] if rng.random() < 0.8 else []}]
+    if rng.random() < 0.7:
+        hist.append({"id": x2, "down": [x], "deps": [], "labels": []})
+    d_root = rng.random() < 0.5
+    pre = "0b_base" if not d.isdigit() else "10"
+    if not d_root:
+        hist.append({"id": pre, "down": [], "deps": [], "labels": [lb] if rng.random() < 0.8 else []})
+    hist.append({"id": d, "down": [] if d_root else [pre], "deps": [], "labels": ([lb] if d_root and rng.random() < 0.8 else [])})
+    r1 = d + "_totals" if not d.isdigit() else str(int(d) + 1)
+    hist.append({"id": r1, "down": [d], "deps": [x], "labels": []})
+    if rng.random() < 0.7:
+        r2 = d + "_tail" if not d.isdigit() else str(int(d) + 2)
+        hist.append({"id": r2, "down": [r1], "deps": [], "labels": []})
+    if rng.random() < 0.3:
+        hist.append({"id": "zz_other", "down": [], "deps": [], "labels": []})
+    rng.shuffle(hist)
+    return hist
+
+
 def parents(hist):
     return {r["id"]: list(r.get("down", [])) + list(r.get("deps", [])) for r in hist}
 
